@@ -1570,8 +1570,13 @@ func c17r9(rc *core.RC) {
 	n := 0
 	for _, sq := range seqs {
 		bp.Steps = 0
+		bp.OutOfRange = ""
 		bp.Strings[sObj] = sq
 		_, _, done, ok := bp.ExecList(info, fd.Body.List, core.BindAll(nil))
+		if (!ok || !done) && bp.OutOfRange != "" {
+			rc.Bad(key, fd.Pos(), "for the bytes % x decodeRuneInString reads %s: an index out of range, every Marshal entry point panics on a string that ends in the first bytes of a longer sequence", sq, bp.OutOfRange)
+			return
+		}
 		if !ok || !done || len(bp.Results) != 2 {
 			rc.Unknown(key, fd.Pos(), "decodeRuneInString could not be folded for the bytes % x (a construct outside straight-line code, if, switch and constant tables)", sq)
 			return
